@@ -53,6 +53,50 @@ func evPointsExt(t *Tracer, w Win, ps []Pt, h, v int64) {
 	t.Emit(e, len(ps) > 0)
 }
 
+// evPointNudge: the point one floating-point step below / above a lattice point in
+// longitude (du) and altitude (da).
+func evPointNudge(t *Tracer, w Win, p Pt, du, da, h, v int64) {
+	lon, lat, alt := w.realPoint(p)
+	if alt == 0 {
+		da = 0 // one step from zero is a subnormal number of metres: not claimed
+	}
+	edge := lon == 180
+	nudge := func(x float64, d int64) float64 {
+		switch d {
+		case -1:
+			return math.Nextafter(x, math.Inf(-1))
+		case 1:
+			return math.Nextafter(x, math.Inf(1))
+		}
+		return x
+	}
+	lon, alt = nudge(lon, du), nudge(alt, da)
+	pt, err := object.NewPoint(lon, lat, alt)
+	if err != nil || math.Abs(alt) > 1<<25 {
+		return // outside the documented domain: not a case
+	}
+	o, res := guard(func() (any, error) {
+		return shape.GetExtendedSpatialIdsOnPoints([]*object.Point{pt}, w.H0+h, w.V0+v)
+	})
+	e := w.ev("PointNudge", map[string]any{"p": p.Arr(), "du": du, "da": da, "h": h, "v": v, "edge": edge && du == -1, "valid": true})
+	e.O, e.Real = o, map[string]any{"pt": hexTriple(lon, lat, alt), "h": w.H0 + h, "v": w.V0 + v}
+	e.R = []any{}
+	if o != "panic" {
+		for _, s := range strs(res) {
+			if id, ok := ParseExt(s); ok && id.H >= 0 && id.H <= 62 {
+				n := int64(1) << uint(id.H)
+				if id.X < 0 || id.X >= n || id.Y < 0 || id.Y >= n {
+					e.A["valid"] = false
+				}
+			}
+		}
+		e.R = w.projExtList(strs(res), &e.Bad)
+	} else {
+		e.Bad = "panic"
+	}
+	t.Emit(e, true)
+}
+
 func evPointsSp(t *Tracer, w Win, ps []Pt, z int64) {
 	pts, desc, ok := w.realPoints(ps)
 	if !ok {
@@ -75,8 +119,13 @@ func evPointsSp(t *Tracer, w Win, ps []Pt, z int64) {
 // with longitude / altitude on, just below and just above cell boundaries.
 func (r Rng) latticePoint(w Win, h, v int64) Pt {
 	k := h + 2 + r.In(0, 3)
-	if w.H0+k > 42 {
-		k = 42 - w.H0
+	if !w.Abs && w.H0 >= 18 && r.Chance(0.2) {
+		// a lattice finer than 1e-10 degrees (360 / 2^46 = 5e-12): the points next to a cell
+		// border are then closer to it than any tolerance the library uses for coordinates
+		k = 46 - w.H0
+	}
+	if w.H0+k > 46 {
+		k = 46 - w.H0
 	}
 	ka := v + r.In(0, 3)
 	if w.V0+ka > 40 {
@@ -463,6 +512,21 @@ func drivePoint(t *Tracer, r Rng, n int) {
 				ps = append(ps, p)
 			}
 			evPointsExt(t, w, ps, h, v)
+			if len(ps) > 0 && ps[0].Lim == 0 {
+				p := ps[0]
+				if r.Chance(0.5) { // onto a column / layer border of the queried zoom
+					if p.K >= h {
+						p.U = p.U >> uint(p.K-h) << uint(p.K-h)
+					}
+					if p.KA >= v {
+						p.A = p.A >> uint(p.KA-v) << uint(p.KA-v)
+					}
+				}
+				if r.Chance(0.25) {
+					p.U = int64(1) << uint(p.K) // from longitude +180 (absolute mode / world edge windows)
+				}
+				evPointNudge(t, w, p, r.Pick(-1, -1, 0, 1), r.Pick(-1, -1, 0, 1), h, v)
+			}
 		} else {
 			d := r.In(0, 24)
 			w := r.randomWindow(d, d, true)
@@ -534,6 +598,9 @@ func init() {
 	families["hier"] = driveHier
 	reg("PointsExt", func(t *Tracer, w Win, a map[string]any) {
 		evPointsExt(t, w, decPts(a["pts"]), decInt(a["h"]), decInt(a["v"]))
+	})
+	reg("PointNudge", func(t *Tracer, w Win, a map[string]any) {
+		evPointNudge(t, w, decPt(a["p"]), decInt(a["du"]), decInt(a["da"]), decInt(a["h"]), decInt(a["v"]))
 	})
 	reg("PointsSp", func(t *Tracer, w Win, a map[string]any) {
 		evPointsSp(t, w, decPts(a["pts"]), decInt(a["z"]))
